@@ -194,6 +194,28 @@ def run(ctx, pid):
 
     stress_futs = [pool.submit(stress_one, k) for k in KINDS]
 
+    # ------------------------------------------------------------------ 2b. capacity clause: fill phase without a consumer
+    def fill_one(kind, cap, doccap):
+        with lock:
+            t = ctx.tmp("fill-%s.ndjson" % kind)
+        n = 400 if quick else 5000
+        ctx.run([exe, "stress", kind + "_fill", str(cap), "6", "4", str(n), str(ctx.seed * 777 + cap), t], timeout=1800)
+        with lock:
+            cfg = ctx.tmp("CapMonitor_%s.cfg" % kind)
+        with open(cfg, "w") as f:
+            f.write("SPECIFICATION Spec\nCONSTANTS\n  Cap = %d\nCHECK_DEADLOCK FALSE\n" % doccap)
+        name = os.path.basename(cfg)
+        r = ctx.tlc(SPEC, name, module="CapMonitor", dfs=True, files={"trace.ndjson": t, name: cfg}, timeout=3000, name="cap-" + kind)
+        nl = sum(1 for _ in open(t))
+        if r.depth != nl + 1:
+            raise vlib.Infra("CapMonitor consumed %d of %d lines (%s)" % (r.depth - 1, nl, kind))
+        mm = vlib.tuples(r.out, "MISMATCH")
+        if len(mm) != r.out.count('"MISMATCH"'):
+            raise vlib.Infra("unparsed MISMATCH lines (CapMonitor %s)" % kind)
+        return kind, n, mm, t
+
+    fill_futs = [pool.submit(fill_one, k, c, d) for k, c, d in (("bprio", 3, 3), ("bstable", 3, 3), ("nbring", 3, 4))]
+
     # ------------------------------------------------------------------ 3. spec -> code: Mpsc edge cover on four kinds
     d = f_dump_m.result()
     g = tlagraph.Graph.load(os.path.join(d.rundir, "graph.dot"))
@@ -270,5 +292,19 @@ def run(ctx, pid):
             samples.append({"kind": kind, "history_head": j.rows[1:9]})
         ctx.log("stress %-8s: histories %d strict %d relaxed %s" % (kind, j.n, j.strict, dict(j.relaxed)))
         account(kind, j, "free-running stress")
+    for fut in fill_futs:
+        kind, n, mm, t = fut.result()
+        total["hist"] += n
+        total["strict"] += n - len({m[0] for m in mm})
+        ctx.log("fill   %-8s: %d fill-phase histories (6 producers x 4, consumer starts afterwards), capacity mismatches %d" % (kind, n, len(mm)))
+        if mm:
+            rows = vlib.read_ndjson(t)
+            ln = int(mm[0][0])
+            start = max(i for i in range(ln) if rows[i]["ev"] == "New")
+            end = next((i for i in range(ln, len(rows)) if rows[i]["ev"] == "New"), len(rows))
+            rp = ctx.save_replay("%s-capacity-seed%d" % (kind, ctx.seed), cut(ctx, rows, (start + 1, end), "capacity-%s" % kind))
+            finish(violations=len(mm))
+            raise vlib.Violation(pid, rp, "mailbox %s: holds %s messages with documented capacity %s (successful Enqueues minus "
+                                 "started Dequeues at trace line %s)" % (kind, mm[0][1], mm[0][2], mm[0][0]))
     pool.shutdown()
     finish()
